@@ -127,6 +127,9 @@ fn single<E: Elem>(sb: &Single) -> SingleBoundary<E> {
         Single::SecondDeriv(v) => SingleBoundary::SecondDeriv(E::of_f64(*v)),
     }
 }
+pub fn rowbc_pub<E: Elem>(rb: &RowBc) -> RowBoundary<E> {
+    rowbc(rb)
+}
 fn rowbc<E: Elem>(rb: &RowBc) -> RowBoundary<E> {
     match rb {
         RowBc::NotAKnot => RowBoundary::NotAKnot,
